@@ -87,6 +87,7 @@ type elWriter struct {
 	script []any
 	i      int
 	taken  []byte
+	shy    bool // it took less than it was offered, or failed, at least once
 }
 
 func (w *elWriter) Write(p []byte) (int, error) {
@@ -96,6 +97,9 @@ func (w *elWriter) Write(p []byte) (int, error) {
 		w.i++
 	}
 	m := vsup.Amount(kind, len(p), w.h.scale)
+	if m < len(p) || e == "ERR" {
+		w.shy = true
+	}
 	w.taken = append(w.taken, p[:m]...)
 	if e == "ERR" {
 		return m, errScripted
@@ -254,6 +258,10 @@ func (h *elGhost) apply(e vsup.Edge, to vsup.State) {
 			return
 		}
 		q.Drop(len(wr.taken))
+		// a writer that takes whatever it is offered gets everything that is buffered
+		if !wr.shy && B > 0 && (q.Len() != 0 || err != nil) {
+			h.viol(op, "incomplete", fmt.Sprintf("WriteTo to a writer that accepts everything moved %d of %d buffered bytes (err %v)", len(wr.taken), B, err))
+		}
 		if int(n) != expN() || errClass(err) != vsup.Str(ret["err"]) {
 			h.nonconf(op, "result", fmt.Sprintf("WriteTo = %d,%s; model %d,%s", n, errClass(err), expN(), ret["err"]))
 		}
